@@ -217,7 +217,16 @@ theorem resolve_spec (c : Ctx) (arg : Value) (v : JVal) (ts : List Tetraplet) (p
     | error e => simp [hg] at h
     | panic s => simp [hg] at h
   | canonWL n l => simp [Covered] at hcov
-  | canonMap n => simp [Covered] at hcov
+  | canonMap n =>
+    simp only [resolveValue, bind, Res.bind] at h
+    cases hg : c.scalars.getCanonMap n with
+    | ok cm =>
+      simp only [hg, pure] at h
+      injection h with h; injection h with _ h; injection h with h _
+      subst h
+      simp [expectedTetraplets, prov, canonMapTetraplets, hg]
+    | error e => simp [hg] at h
+    | panic s => simp [hg] at h
   | canonMapWL n l => simp [Covered] at hcov
 
 /-- what the code does for a lens on `:error:` / `%last_error%`: the lens is NOT recorded -/
@@ -303,6 +312,97 @@ theorem resolve_lastError_shape {env : Env} {c : Ctx} (hi : EnvInv env c) {l : O
   obtain ⟨h1, h2⟩ := resolveErrors_tetraplets c _ _ _ _ _ h
   subst h1 h2
   exact ⟨_, rfl, errOK_resolved (pairOK_closed env c.cid) c hi.lastError⟩
+
+theorem res_bind_ok3 {ε α β : Type} {x : Res ε α} {f : α → Res ε β} {b : β} (h : (x >>= f) = .ok b) : ∃ a, x = .ok a ∧ f a = .ok b := by
+  cases x with
+  | ok a => exact ⟨a, rfl, h⟩
+  | error e => cases h
+  | panic s => cases h
+
+theorem lensOfLambda_ok {α} {l : Lambda} {k : Lens.LambdaAST → ER α} {a : α} (h : lensOfLambda l k = .ok a) :
+    ∃ lam, Lens.LambdaAST.ofLambda l = some lam ∧ k lam = .ok a := by
+  unfold lensOfLambda at h
+  split at h
+  · rename_i lam hl; exact ⟨lam, hl, h⟩
+  · simp [unmodelled] at h
+
+/-- a canon stream under a lens: the tetraplet / provenance pair of the indexed element, or a pair with the canon's
+provenance -/
+theorem canonStreamApplyLambda_ok {P : TP} (hP : LensClosed P) {c : Ctx} {cs : CanonStream} {l : Lambda} {cid : Cid}
+    {v : JVal} {t : Tetraplet} {p : Provenance} (hcs : AllAgg P cs.values)
+    (h : canonStreamApplyLambda c cs l (.canon cid) = .ok (v, t, p)) : P t p := by
+  unfold canonStreamApplyLambda at h
+  obtain ⟨lam, _, h⟩ := lensOfLambda_ok h
+  split at h
+  · split at h
+    · split at h
+      · rename_i va hva
+        injection h with h; injection h with _ h; injection h with h1 h2
+        subst h1 h2
+        exact hcs va (List.mem_of_getElem? hva)
+      · cases h
+    · injection h with h; injection h with _ h; injection h with h1 h2
+      subst h1 h2
+      exact hP.nonService _ _ (by intro k hk; cases hk)
+  · cases h
+  · cases h
+
+theorem canonMapApplyLambda_prov {c : Ctx} {m : CanonStreamMapAgg} {l : Lambda} {p0 : Provenance}
+    {v : JVal} {t : Tetraplet} {p : Provenance} (h : canonMapApplyLambda c m l p0 = .ok (v, t, p)) : p = p0 := by
+  unfold canonMapApplyLambda at h
+  obtain ⟨lam, _, h⟩ := lensOfLambda_ok h
+  split at h
+  · cases ht : canonMapLensTetraplet c m l with
+    | ok t' =>
+      simp only [ht, Res.bind] at h
+      injection h with h; injection h with _ h; injection h with _ h2
+      exact h2.symm
+    | error e => simp [ht, Res.bind] at h
+    | panic s => simp [ht, Res.bind] at h
+  · cases h
+  · cases h
+
+theorem resolve_canonWL_shape {env : Env} {c : Ctx} (hi : EnvInv env c) {n : String} {l : Lambda} {v : JVal} {ts : List Tetraplet} {p : Provenance}
+    (h : resolveValue c (.canonWL n l) = .ok (v, ts, p)) : ∃ t, ts = [t] ∧ PairOK env c.cid t p := by
+  simp only [resolveValue] at h
+  obtain ⟨cs, hg, h⟩ := res_bind_ok3 h
+  obtain ⟨x, hx, h⟩ := res_bind_ok3 h
+  obtain ⟨v', t', p'⟩ := x
+  simp only [pure] at h
+  injection h with h; injection h with _ h; injection h with h1 h2
+  subst h1 h2
+  exact ⟨t', rfl, canonStreamApplyLambda_ok (pairOK_closed env c.cid) (getCanonStream_ok hi.scalars hg) hx⟩
+
+theorem resolve_canonMapWL_shape {env : Env} {c : Ctx} (hi : EnvInv env c) {n : String} {l : Lambda} {v : JVal} {ts : List Tetraplet} {p : Provenance}
+    (h : resolveValue c (.canonMapWL n l) = .ok (v, ts, p)) : ∃ t, ts = [t] ∧ PairOK env c.cid t p := by
+  simp only [resolveValue] at h
+  obtain ⟨cm, hg, h⟩ := res_bind_ok3 h
+  obtain ⟨x, hx, h⟩ := res_bind_ok3 h
+  obtain ⟨v', t', p'⟩ := x
+  simp only [pure] at h
+  injection h with h; injection h with _ h; injection h with h1 h2
+  subst h1 h2
+  have := canonMapApplyLambda_prov hx
+  subst this
+  exact ⟨t', rfl, trivial⟩
+
+theorem mem_firstPairPerKey : ∀ (l : List ValueAggregate) (met : List Lens.StreamMapKey) (x : ValueAggregate),
+    x ∈ firstPairPerKey l met → x ∈ l
+  | [], met, x, h => by simp [firstPairPerKey] at h
+  | va :: rest, met, x, h => by
+    unfold firstPairPerKey at h
+    split at h
+    · split at h
+      · exact List.mem_cons_of_mem _ (mem_firstPairPerKey rest _ x h)
+      · rcases List.mem_cons.mp h with h1 | h1
+        · subst h1; exact List.mem_cons_self
+        · exact List.mem_cons_of_mem _ (mem_firstPairPerKey rest _ x h1)
+    · exact List.mem_cons_of_mem _ (mem_firstPairPerKey rest _ x h)
+
+theorem mem_lastPairPerKey {l : List ValueAggregate} {x : ValueAggregate} (h : x ∈ lastPairPerKey l) : x ∈ l := by
+  unfold lastPairPerKey at h
+  have := mem_firstPairPerKey _ _ x (List.mem_reverse.mp h)
+  exact List.mem_reverse.mp this
 
 /-- `collect_args`: as many values and tetraplet lists as arguments, each list as specified -/
 theorem collectArgs_spec (c : Ctx) : ∀ (args : List Value) (vs : List JVal) (tss : List (List Tetraplet)),
